@@ -63,11 +63,37 @@ def json_encode(ip, args, kwargs, node):
     return s
 
 
+def json_object_of(ip, sterm):
+    """the JSON object a text decodes to, as a map str -> value (functions of the text: the same text, the same map)"""
+    A = z3.ArraySort(z3.StringSort(), z3.BoolSort())
+    Bv = z3.ArraySort(z3.StringSort(), Opaque)
+    ref = ip.st.new_ref()
+    ip.st.heap[(ref, "dom")] = z3.Function("json_object_keys", z3.StringSort(), A)(sterm)
+    ip.st.heap[(ref, "val")] = z3.Function("json_object_values", z3.StringSort(), Bv)(sterm)
+    # a decoded JSON value is a dict / list / str / number / bool / None - never the `inspect.Parameter.empty` sentinel
+    if not getattr(ip.st, "_json_not_sentinel", None) or str(sterm) not in ip.st._json_not_sentinel:
+        ip.st._json_not_sentinel = (getattr(ip.st, "_json_not_sentinel", None) or set()) | {str(sterm)}
+        k = z3.Const(ip.st.fresh_name("k"), z3.StringSort())
+        ip.st.assume(z3.ForAll([k], z3.Select(ip.st.heap[(ref, "val")], k) != z3.Const("inspect.Parameter.empty", Opaque)))
+    return VMap(ref, ("str",), ("opaque",))
+
+
+def s_json_object(ip, args, kwargs, node):
+    return json_object_of(ip, args[0].term)
+
+
 def json_loads(ip, args, kwargs, node):
     s = ip.unopt(args[0])
     if isinstance(s, VBytes):
         s = VStr(s.term)
     payload = getattr(s, "json", None)
+    c = getattr(ip, "current_contract", None)
+    if payload is None and c is not None and c.options.get("json_loads") == "object":
+        # the payload of a job: arguments are sent as ONE JSON object (Job.args is a dict); invalid text raises
+        if not ip.spec_mode and ip.st.choose(2, "json-error") == 1:
+            raise_("JSONDecodeError")
+        ip.st.assumed_used.add("payload text decodes to a JSON object (dict with string keys) or json.loads raises")
+        return json_object_of(ip, s.term)
     if payload is None:
         # arbitrary text: any JSON value, or a decoding error
         if not ip.spec_mode and ip.st.choose(2, "json-error") == 1:
@@ -151,16 +177,28 @@ def install(lib):
     lib["json"] = VModule("json", {"loads": VBuiltin("json.loads", json_loads),
                                    "JSONEncoder": VModule("JSONEncoder", {"default": VBuiltin("JSONEncoder.default", _base_default)})})
     lib["__getitem__"]["opaque"] = opaque_getitem
+    lib["json_object"] = VBuiltin("json_object", s_json_object)
     lib["asdict"] = VBuiltin("asdict", b_asdict)
     lib["is_dataclass"] = VBuiltin("is_dataclass", b_is_dataclass)
     lib["__methods__"][("dt", "isoformat")] = VBuiltin("datetime.isoformat", dt_isoformat)
     lib["datetime"].attrs["fromisoformat"] = VBuiltin("datetime.fromisoformat", dt_fromisoformat)
     lib["uuid"] = VModule("uuid", {"uuid4": VBuiltin("uuid.uuid4", uuid4)})
     lib["uuid4"] = lib["uuid"].attrs["uuid4"]
-    lib["is_installed"] = VBuiltin("is_installed", lambda ip, a, k, n: VBool(False))   # pydantic models are outside the subset
+    lib["is_installed"] = VBuiltin("is_installed", b_is_installed)
     for n in ("date", "time"):
         lib.setdefault(n, VClass("py_" + n))
     lib["__td_total_seconds_ieee__"] = td_total_seconds_ieee
+
+
+def b_is_installed(ip, args, kwargs, node):
+    """is_installed(package[, constraints]): False by default (pydantic models are outside the subset); a contract may ask
+    for the uninterpreted predicate `installed(package, constraints)` instead (options={"is_installed": "symbolic"})"""
+    c = getattr(ip, "current_contract", None)
+    if c is not None and c.options.get("is_installed") == "symbolic":
+        pkg = args[0].term
+        cons = args[1].term if len(args) > 1 else z3.StringVal("")
+        return VBool(z3.Function("installed", z3.StringSort(), z3.StringSort(), z3.BoolSort())(pkg, cons))
+    return VBool(False)
 
 
 def _base_default(ip, args, kwargs, node):
